@@ -47,10 +47,10 @@ def handlers : List (String × (List String → List String → Option Verdict))
   ("lst", Driver.C09.lst),
   ("bt", Driver.C20.bt), ("sv", Driver.C20.sv),
   ("shut", Driver.C08.shut), ("cw", Driver.C08.cw),
-  ("d10", Driver.Dialer.d10), ("d11", Driver.Dialer.d11), ("rd", Driver.Dialer.rd), ("rdm", Driver.Dialer.rdm), ("sc", Driver.Sysctl.sc), ("ns", Driver.Netns.ns), ("nsw", Driver.Netns.nsw), ("nsa", Driver.Netns.nsa), ("nsb", Driver.Netns.nsb), ("scc", Driver.Sysctl.scc),
+  ("d10", Driver.Dialer.d10), ("d11", Driver.Dialer.d11), ("sld", Driver.Dialer.sld), ("rd", Driver.Dialer.rd), ("rdm", Driver.Dialer.rdm), ("sc", Driver.Sysctl.sc), ("ns", Driver.Netns.ns), ("nsw", Driver.Netns.nsw), ("nsa", Driver.Netns.nsa), ("nsb", Driver.Netns.nsb), ("scc", Driver.Sysctl.scc),
   ("srv", Driver.C20Serve.srv), ("http", Driver.C20Serve.http), ("grp", Driver.C10.grp), ("grpq", Driver.C10Q.grpq),
   ("pth", Driver.C04.pth),
-  ("scr", Driver.C17.scr), ("cgs", Driver.C17.cgs), ("api", Driver.C17.api), ("rt", Driver.C17.rt),
+  ("scr", Driver.C17.scr), ("cgs", Driver.C17.cgs), ("api", Driver.C17.api), ("rt", Driver.C17.rt), ("rp", Driver.C17.rp),
   ("pr", Driver.OSGlue.pr), ("osc", Driver.OSGlue.osc),
   ("ci", Driver.OSGlue.ci), ("li", Driver.OSGlue.li), ("nsi", Driver.OSGlue.nsi),
   ("ab", Driver.OSGlue.ab), ("rb", Driver.OSGlue.rb)
